@@ -17,7 +17,7 @@ LEVEL_TEXT = (
     'fixed-seed one and a sort precedes the feed loop, no interior mutability / pointer identity in '
     'state types. Does not decide collision-freedom or value-level coherence of VectorClock.')
 
-FLOORS = {'C04-R1': 8, 'C04-R2': 4, 'C04-R3': 3, 'C04-R4': 6, 'C04-R5': 8, 'C04-R6': 4}
+FLOORS = {'C04-R1': 8, 'C04-R2': 4, 'C04-R3': 3, 'C04-R4': 6, 'C04-R5': 8, 'C04-R6': 4, 'C04-R7': 5}
 
 HASH = 'std::hash::Hash'
 PEQ = 'std::cmp::PartialEq'
@@ -440,3 +440,40 @@ def run(ctx):
     rule_r4(ctx, F)
     rule_r5(ctx, F)
     rule_r6(ctx, F)
+    with ctx.rule('C04-R7', 'set-like state'):
+        rule_r7(ctx, F)
+
+
+SET_LIKE = [
+    # (type, variant, field, what the field means) - collections whose element ORDER has no meaning
+    ('actor::timers::Timers', 'Timers', '0', 'the set of timers that are set'),
+    ('actor::model_state::RandomChoices', 'RandomChoices', 'map', 'the pending random choices by key'),
+    ('actor::network::Network', 'UnorderedDuplicating', '0', 'the set of envelopes in flight'),
+    ('actor::network::Network', 'UnorderedNonDuplicating', '0', 'the multiset of envelopes in flight'),
+    ('actor::network::Network', 'Ordered', '0', 'the flows by (src, dst)'),
+]
+CANONICAL = ('util::HashableHashSet', 'util::HashableHashMap', 'std::collections::BTreeSet', 'std::collections::BTreeMap')
+
+
+def rule_r7(ctx, F, rule='C04-R7'):
+    ctx.doc(rule, 'collections of the state whose element order has no meaning (timers set, pending choices, '
+                  'unordered networks, the flow map) are kept in a representation whose Hash/Eq ignore insertion '
+                  'order (HashableHashSet/Map, BTreeSet/Map), or the owning type implements Hash and Eq by hand')
+    manual = set()
+    for tr in (HASH, PEQ):
+        for im, adt in manual_impls(F, tr):
+            manual.add((adt['path'], tr))
+    for (ty, var, fld, what) in SET_LIKE:
+        adt = F.adt(ty, 'state type')
+        vs = [v for v in adt['variants'] if v['name'] == var]
+        fs = [f for v in vs for f in v['fields'] if f['name'] == fld]
+        if not fs:
+            raise AnchorMissing('%s::%s.%s' % (ty, var, fld))
+        f = fs[0]
+        head = f['tree'].get('path') if f['tree'].get('k') == 'adt' else None
+        by_hand = (ty, HASH) in manual and (ty, PEQ) in manual
+        ctx.check(head in CANONICAL or by_hand, rule, '%s::%s.%s' % (ty.split('::')[-1], var, fld), ty,
+                  good='%s is a %s' % (what, head),
+                  bad='%s::%s.%s (%s) is a %s with derived Hash/Eq: two states that hold the same elements inserted '
+                      'in a different order are unequal and fingerprint differently, so commuting interleavings are '
+                      'explored as distinct states' % (ty, var, fld, what, f['ty'][:60]), span=adt['span'])
